@@ -190,7 +190,9 @@ class Interp:
                 # truthiness of an unmodelled result: an unknown that depends on that result only
                 import json as _json
                 from .engine import describe
-                key = "truth<%s|%s>" % (v.fn, _json.dumps([describe(a) for a in v.args], sort_keys=True, default=str))
+                import hashlib as _hl
+                # (a digest: the text may hold quotes / backslashes, which SMT-LIB symbols cannot)
+                key = "truth<%s:%s>" % (v.fn, _hl.md5(_json.dumps([describe(a) for a in v.args], sort_keys=True, default=str).encode()).hexdigest()[:16])
                 return self.ctx.branch(z3.Bool(key))
             return True
         if isinstance(v, SplitView):
@@ -1520,7 +1522,8 @@ class Interp:
     def b_open(self, *a, **k):
         """open(path, mode, encoding=...): an opaque file object that is a function of its arguments (A-OS)"""
         if len(a) > 1 and isinstance(a[1], str) and any(c in a[1] for c in "wax+"):
-            raise Unsupported("open for writing")
+            # creating / truncating a file is an observable effect: a ghost event, then the opaque file object
+            self.__dict__.setdefault("ghost", []).append(["open-for-writing"] + list(a) + [k.get(n) for n in sorted(k)])
         return Opaque("open", list(a) + [k.get(n) for n in sorted(k)])
 
     def b_len(self, a):
@@ -1961,9 +1964,25 @@ class Interp:
                     return words
             raise Unsupported("split() form")
         if m == "format":
+            if isinstance(o, str) and not kwargs:
+                # a literal template with plain {} / {n} fields: concatenation of the pieces and the formatted arguments
+                import string as _string
+                out, auto = "", 0
+                for lit, field, spec, conv in _string.Formatter().parse(o):
+                    out = self.binop(ast.Add(), out, lit) if lit else out
+                    if field is None:
+                        continue
+                    if spec or conv or not (field == "" or field.isdigit()):
+                        raise Unsupported("str.format field %r" % field)
+                    idx = int(field) if field else auto
+                    auto += 1
+                    if idx >= len(args):
+                        raise pyraise("IndexError", "Replacement index out of range")
+                    out = self.binop(ast.Add(), out, self.fmt(args[idx]))
+                return out
             raise Unsupported("str.format with symbolic value")
         if m == "encode" or m == "decode":
-            raise Unsupported("str.%s" % m)
+            return Opaque("str." + m, [o] + list(args))      # bytes are not modelled: a function of the text and the codec
         if m == "find" or m == "index":
             if len(args) == 1:
                 idx = z3.IndexOf(t, strterm(args[0]), 0)
@@ -2324,6 +2343,25 @@ class Interp:
             return SStr(tail)
         if name == "copy.deepcopy":
             return self.b_deepcopy(args[0])
+        if name == "re.compile" and args and all(not self.has_sym(a) for a in args) and all(not self.has_sym(v) for v in kwargs.values()):
+            import re as _re4
+            return _re4.compile(*args, **kwargs)
+        if name in ("lex.lex", "yacc.yacc", "ply.lex.lex", "ply.yacc.yacc"):
+            # A-PLY: the generated lexer / parser object is a function of the keyword settings it was asked with
+            # (the object / module it is built from is named by its class only: own-ness is the global-purity frame clause)
+            def _nm(v):
+                return getattr(getattr(v, "_cls", None), "__name__", None) if isinstance(v, Obj) else v
+            return Opaque(name.split(".")[-2] + "." + name.split(".")[-1], [[k, _nm(kwargs[k])] for k in sorted(kwargs)])
+        if name in ("os.path.isdir", "os.path.isfile", "os.path.exists") and len(args) == 1:
+            # the state of the file system is not modelled: an unknown that depends on the path only
+            return Opaque(name, list(args))
+        if name == "os.makedirs":
+            self.__dict__.setdefault("ghost", []).append(["os.makedirs"] + list(args) + [[k, kwargs[k]] for k in sorted(kwargs)])
+            return None
+        if name == "json.dump" and len(args) >= 2:
+            # writing JSON to an opened file: the observable effect is (what, where) - `where` is the opaque open(...) value
+            self.__dict__.setdefault("ghost", []).append(["json.dump", args[0], args[1]] + [[k, kwargs[k]] for k in sorted(kwargs)])
+            return None
         if name in ("pprint.pprint", "pprint.pp"):
             # console output is an observable effect: a ghost event (the reference records it with ghost_call("print", x))
             self.__dict__.setdefault("ghost", []).append(["print"] + list(args))
